@@ -18,6 +18,7 @@ CONSTANTS MaxCircs,    \* circuit handles
           MinEmit,     \* shortest history printed as a program
           Anchors,     \* templates that may be used freely; the others (Menu \ Anchors) at most MaxNonAnchor times per program
           MaxNonAnchor,
+          ObsKinds,    \* kinds of interior observation: "full" battery, "plot" (compact drawing), "plotnc", "stim", "duration", "ops"
           DeepRefs,    \* may an explicit relation refer to an operation nested inside a sub-circuit (not a direct entry)?
           EmitOneIn    \* print every history (1) or a random 1/EmitOneIn sample of them (seeded by TLC's -seed)
 VARIABLES heap, tops, sealed, env, next, hist
@@ -158,7 +159,7 @@ Leave ==
 
 Obs ==
   /\ "Obs" \in Acts /\ CanStep /\ ObsBudget /\ hist # <<>> /\ hist[Len(hist)].a # "Obs"
-  /\ \E c \in tops, w \in {"full"} :
+  /\ \E c \in tops, w \in ObsKinds :
        /\ heap[c].kids # <<>>
        /\ hist' = Append(hist, Step("Obs", c, None, None, NoM, NoLink, <<"fixed", 1>>, "", 0, w))
        /\ UNCHANGED <<heap, tops, sealed, env, next>>
